@@ -8,7 +8,7 @@ from .. import faces, model
 LEVEL = "model_checking"
 RULE = ("records = Grid(ds, face_connections=table) for all 625 tables over 2 faces x 1 axis, every single and double "
         "edit (retarget face incl. out of range, retarget axis incl. unknown, flip reverse, delete, insert) of "
-        "consistent 2-face x 2-axis and 3-face tables, random consistent tables up to 6 faces with self links, tables "
+        "consistent 2-face x 2-axis and 3-face tables, consistent renamings of an axis / a face to one the grid lacks, random consistent tables up to 6 faces with self links, tables "
         "with two face dimensions or a face dimension missing from the dataset; non-trivial = distinct tables")
 
 AXES = ["a1", "a2"]
@@ -90,7 +90,15 @@ def gen_cases(rng, thorough):
         elif r < 0.16:
             c["facedim_in_ds"] = False
         cases.append(c)
-    # a face_connections value naming a link to an existing face whose own table is missing altogether
+    # tables that are reciprocal in themselves but speak of an axis the grid lacks, or of a face beyond the face
+    # dimension, on BOTH ends of their links (a consistent renaming of a good table)
+    for nf, axes, entries in base_tables(rng) + [(2, ["a1"], [[0, "a1", 1, 1, "a1", False], [1, "a1", 0, 0, "a1", False]])]:
+        for a in axes:
+            t = [[e[0], "a9" if e[1] == a else e[1], e[2], e[3], "a9" if e[4] == a else e[4], e[5]] for e in entries]
+            cases.append({"nfaces": nf, "axes": axes, "table": t, "nfacedims": 1, "facedim_in_ds": True})
+        for f in range(nf):
+            t = [[nf + 1 if e[0] == f else e[0], e[1], e[2], nf + 1 if e[3] == f else e[3], e[4], e[5]] for e in entries]
+            cases.append({"nfaces": nf, "axes": axes, "table": t, "nfacedims": 1, "facedim_in_ds": True})
     for k, c in enumerate(cases):
         c["id"] = k + 1
         c["ev"] = "Construct"
